@@ -391,7 +391,9 @@ class Queue(Greenlet):
             for reply, group_env in self._split_by_reply(envelope, replies):
                 reply.message += ' (Too many retries)'
                 self._perm_fail(None, group_env, reply)
-            self._remove(id)
+            # This method may itself be running in the store pool: waiting
+            # for another slot of a bounded pool here could wait forever.
+            self._remove_stored(id)
             return False
         else:
             when = time.time() + wait
